@@ -13,7 +13,8 @@ TB = ("TLC 1.8 + the specifications in /verif/spec (Wire.tla written from MS-LLT
 CHECKS = {
     "C01": ("exploration", "3 C01, 2.1 BoundsMC",
             "model-generated and boundary/noise histories through all three receive entry points in exact-MTU heap buffers under ASan/UBSan "
-            "(-fno-sanitize-recover); trace must be complete and accepted with Check=C02; bounds logic (read extent <= MTU) model-checked in ResponderMC",
+            "(-fno-sanitize-recover); trace must be complete and accepted with Check=C02; the session table, the engines and the Darwin frame flow driven under the same "
+            "sanitizers; bounds logic (read extent <= MTU) model-checked in ResponderMC",
             "TLA+ bounds model + sanitizer-observed trace replay"),
     "C02": ("model_checking", "3 C02",
             "TLC validates every lltd_port_send_frame of valid, mutated and noise histories against Wire!TxDecode well-formedness and "
@@ -22,7 +23,7 @@ CHECKS = {
     "C03": ("model_checking", "3 C03", "TLC checks Responder!HelloOK on every reply to a Discover in generated histories (both services, bridged, heard Hellos)",
             "TLA+ trace validation (TLC), general spec Responder"),
     "C04": ("model_checking", "3 C04", "TLC computes the required TLV bytes from the logged attribute tuple (Responder!HelloAttrsOK) and compares with the Hello the code sent, "
-            "attribute getters failing independently", "TLA+ trace validation, TLC as byte oracle"),
+            "attribute getters failing independently, attributes changing under a running interface, one interface's Hello preempted at every port call by another's request", "TLA+ trace validation, TLC as byte oracle"),
     "C05": ("model_checking", "3 C05", "nondeterministic TLC monitor of the mapper role with named freedoms; (ToS, opcode) single-step sweep in both mapper states plus random histories; "
             "history invariant model-checked in ResponderMC", "TLA+ model checking + trace validation (TLC)"),
     "C06": ("model_checking", "3 C06", "TLC checks the ordered (sleep, send) port-call list of every Emit against Responder!EmitExact / EmitBounded", "TLA+ trace validation (TLC)"),
@@ -32,14 +33,15 @@ CHECKS = {
             "TLA+ model checking + trace validation (TLC)"),
     "C09": ("model_checking", "3 C09", "paired traces: history.Reset.c on one interface vs c on a fresh one must transmit identical bytes, each side an allowed Responder behaviour; Reset => Init model-checked",
             "TLA+ trace validation (TLC) with twin equality"),
-    "C10": ("model_checking", "3 C10", "two instances in one process, A's transmitted bytes delivered verbatim to B (provenance verified by the monitor); TLC requires B's QueryResp to list A's probes",
+    "C10": ("model_checking", "3 C10", "two instances in one process, A's transmitted bytes delivered verbatim to B (provenance verified by the monitor); TLC requires A to emit what the Emit orders (C06 rules on the emitting half) and B's QueryResp to list A's probes",
             "TLA+ trace validation (TLC), Network monitor"),
     "C11": ("model_checking", "3 C11", "TLC evaluates Automata!Classify on the recorded frame bytes, table and own address and requires the return value of derive_session_event "
             "(built without LLTD_TESTING) to be in the allowed set: counts 0..240, every position class, table variants, opcodes 0..255, truncated frames",
             "TLA+ trace validation (TLC) of a function value"),
     "C12": ("model_checking", "3 C12", "every send_hello callback made by automata_tick (also through the textually extracted Darwin frame path) is checked by TLC against the pacing invariants "
-            "(only in tick, only with an incomplete session, >= 1000 ms apart); the abstract timed model TickPacing is model-checked exhaustively",
-            "TLA+ model checking (TickPacing) + trace validation (TLC)"),
+            "(only in tick, only with an incomplete session of the specification's own table, >= 1000 ms apart), two interfaces in one process validated separately; "
+            "the abstract timed model TickPacing is model-checked exhaustively, the exact model TickExactMC by simulation",
+            "TLA+ model checking (TickPacing), simulation (TickExactMC) + trace validation (TLC)"),
     "C13": ("model_checking", "3 C13", "TLC compares band_update_stats / band_choose_hello_time results with Automata!NiNext / HelloIntervalMin on boundary-dense r (halves, no 32-bit wrap in the oracle), "
             "monotone in r along ascending sequences; closed form ALPHA*r^2 >= NMAX for r >= 15 discharged by Apalache (Lemmas.tla)",
             "TLA+ trace validation (TLC) + Apalache lemma"),
@@ -50,8 +52,8 @@ CHECKS = {
     "C16": ("model_checking", "3 C16", "operation sequences of length 200 over up to 24 keys (full-table case) with clock advances compared step by step by TLC with the dictionary model of Automata.tla "
             "(return value, count, empty, all-complete, live set); the dictionary model itself is model-checked (AutomataMC)", "TLA+ model checking + trace validation (TLC)"),
     "C17": ("model_checking", "3 C17", "Registry.tla (PlusCal) explores all interleavings of the registry's shared-memory steps; every maximal schedule is forced through yield hooks on real threads "
-            "and matched against the model (RegistryTrace.tla); TSan with barrier-released threads; interleaved vs solo per-interface traces validated by TLC. The lost-update race of "
-            "lltd_state_for_iface is a recorded known finding", "TLA+/PlusCal model checking + forced-schedule replay + trace validation (TLC), TSan"),
+            "and matched against the model (RegistryTrace.tla); TSan with barrier-released threads; interleaved vs solo per-interface traces validated by TLC; two automata instances with interleaved ticks validated per instance; one interface's request "
+            "preempted at every port call by a whole request of another. The lost-update race of lltd_state_for_iface is a recorded known finding", "TLA+/PlusCal model checking + forced-schedule replay + trace validation (TLC), TSan"),
     "C18": ("fault_enumeration", "3 C18", "every k-th allocation, every transmit, getter subsets failed per corpus request under ASan; TLC checks reaction bounds, ledger and post-Reset equality with a fresh twin",
             "TLA+ trace validation (TLC) over enumerated fault plans"),
     "C19": ("model_checking", "3 C19", "TLC ledger monitors (plateau under floods of distinct probes, idempotence, reset-constant, per-request growth) on live-allocation counts of the verification port",
